@@ -30,7 +30,7 @@ ASSUMPTIONS = [
     "numeric options: deviation bound 1e4 * eps * (n+1) * max(1,|value|) relative - generous for a correct implementation, O(1) errors fire",
 ]
 TIMEOUT = {"quick": 30, "thorough": 240}
-DEADLINE = {"quick": 80, "thorough": 1700}
+DEADLINE = {"quick": 80, "thorough": 1000}
 MIN_DECIDING = {"quick": 15, "thorough": 150}
 NCASES = {"quick": 48, "thorough": 900}
 
